@@ -389,8 +389,10 @@ pub fn two_backups_one_handle(
 }
 
 /// A backup counts as "reported complete success" iff Ok, no monitor errors, stats.errors==0.
+/// (A line in the log at ERROR level is not a report here: a backup accounts for its errors
+/// in its result, its monitor and `stats.errors`, and "Ok, 0 errors" is what the user is told.)
 pub fn backup_reported_error(r: &OpReport<BackupOut>) -> bool {
-    r.reported_error() || r.result.as_ref().map(|o| o.stats.errors > 0).unwrap_or(true)
+    r.panic.is_some() || r.result.is_err() || !r.monitor_errors.is_empty() || r.result.as_ref().map(|o| o.stats.errors > 0).unwrap_or(true)
 }
 
 #[derive(Debug, Clone, Serialize, Deserialize, PartialEq, Eq)]
